@@ -19,7 +19,8 @@ def name_of(cfg):
     return (f"{cfg['model']}/w{cfg['world']}/gwf="
             f"{k.get('grad_worker_fraction', 'COMM_OPT')}/"
             f"{K.method_of(cfg)}/kl={k['kl_clip']}/lr={k['lr']}/zero="
-            f"{bool(cfg.get('zero_loss'))}")
+            f"{bool(cfg.get('zero_loss'))}/scale={cfg.get('scale')}/hist="
+            f"{''.join(o[0][0] + (str(o[1]) if len(o) > 1 else '') for o in cfg['history'])}")
 
 
 def run_cfg(cfg, sname):
@@ -91,6 +92,8 @@ def case(part, item):
                 nu = min(1.0, math.sqrt(kl / abs(s)))
             if nu < 1.0:
                 active = True
+                if s < 0:
+                    part.seen('negative_sum', name)
             if kl is not None and not nu * nu * abs(s) <= kl * (1 + 1e-9):
                 part.violation('bound', f'{name}: harness arithmetic', det)
             for pn, V in evA['P'].items():
@@ -170,6 +173,26 @@ def configs(thorough, seed):
                      'seed': seed, 'kfac': k, 'sgd_lr': 0.0,
                      'loss_mult': mult, 'history': [['train']] * 2},
                     'single'))
+    # a negative inner product (negative definite factor loaded by the user,
+    # inverse method): the stated |sum| decides
+    for model, (m, pre), kl, c in itertools.product(
+            ['lin1', 'mlp2'], methods, [1e-6, 1e-3], [0.5, 2.0]):
+        k = dict(damping=0.05, factor_decay=0.5, kl_clip=kl, lr=0.1,
+                 compute_method=m, compute_eigenvalue_outer_product=pre,
+                 factor_update_steps=10, inv_update_steps=1)
+        out.append(({'model': model, 'dtype': 'f32', 'batch': 2, 'world': 1,
+                     'seed': seed, 'kfac': k, 'sgd_lr': 0.0, 'loss_mult': 5.0,
+                     'history': [['train'], ['setneg', c], ['train'],
+                                 ['train']]}, 'single'))
+    # AMP: the gradients handed to step() carry the loss scale
+    for model, (m, pre), kl, sc in itertools.product(
+            ['mlp2', 'conv'], methods, [1e-3, 1e-1],
+            [8.0, ['cyc', [8.0, 2.0, 32.0]]]):
+        k = dict(damping=0.05, factor_decay=0.5, kl_clip=kl, lr=0.1,
+                 compute_method=m, compute_eigenvalue_outer_product=pre)
+        out.append(({'model': model, 'dtype': 'f32', 'batch': 2, 'world': 1,
+                     'seed': seed, 'kfac': k, 'sgd_lr': 0.0, 'loss_mult': 5.0,
+                     'scale': sc, 'history': [['train']] * 3}, 'single'))
     strategies = {2: ['COMM_OPT', 'MEM_OPT'],
                   4: ['COMM_OPT', 'MEM_OPT', 'HYBRID_OPT']}
     for world in (2, 4):
